@@ -29,6 +29,7 @@ type GenOpts struct {
 	OddPropose int // per-mille probability of an unknown proposer
 	EVM        bool
 	EqualPower bool
+	OverLimitGenesis bool // allow more genesis validators than MaxValidatorCnt (C01 quantifies over every genesis)
 }
 
 func defaultWeights() map[string]int {
@@ -99,8 +100,8 @@ func NewGen(rng *rand.Rand, seed int64, o GenOpts, p DParams) *Gen {
 		if o.EqualPower {
 			pw = minP + 50
 		}
-		if i >= int(p.MaxValidatorCnt) {
-			// genesis validators must satisfy the limits: at most MaxValidatorCnt of them
+		if i >= int(p.MaxValidatorCnt) && !o.OverLimitGenesis {
+			// by default the genesis validators satisfy the limits: at most MaxValidatorCnt of them
 			break
 		}
 		cfg.Validators = append(cfg.Validators, GenVal{Key: k, Power: pw})
